@@ -17,7 +17,7 @@ for p in props:
         "evidence_file": "evidence/%s.json" % pid,
         "replay_cmd_template": "./check %s --replay {path}" % pid,
         "engine": "lean4-proof+correspondence",
-        "level_claimed": {"category": "proof", "text": c["text"], "design_ref": "DESIGN.md section 5 (%s), section 12" % pid},
+        "level_claimed": {"category": "proof", "text": c["text"], "design_ref": "DESIGN.md section 0 (as built: 0.2 table row %s, 0.5 trusted base) and section 5 (%s: reasoning behind the design)" % (pid, pid)},
         "level_note": c["note"],
         "technique": c.get("technique", "Lean 4 theorems about a hand-written model + differential correspondence check against /repo"),
     })
